@@ -52,7 +52,7 @@ def run_program(args):
     (key, prog, text, histories, scratch) = args
     wd = os.path.join(scratch, "p%s" % key)
     built, status, log = memdrv.compile_program(prog, wd, text=text)
-    res = {"key": key, "prog": prog, "text": text, "status": status, "log": log[-1500:], "runs": []}
+    res = {"key": key, "prog": prog, "text": text, "status": status, "log": log[-4000:], "runs": []}
     if built is None:
         shutil.rmtree(wd, ignore_errors=True)
         return res
@@ -248,8 +248,8 @@ def run(ctx):
                    "gen/members_gen.py prints the .eql text and the Gallina program from one AST (a mismatch would show as a "
                    "disagreement, i.e. a false alarm); its python closure is used only to keep generated histories inside the "
                    "fragment and by the known-finding classifier late_transport"]
-    ctx.assumptions = ["fragment: one model declaration with member predicates of at most one column (two or more non-member columns "
-                       "make the compiler emit `mapped(None None)` which rustc rejects), global types, predicates, constants of type "
+    ctx.assumptions = ["fragment: one model declaration with member predicates of 0..3 columns of non-member types (an accepted program "
+                       "whose generated module rustc rejects is a violation: seed-two-columns pins /repo 9ee0d26), global types, predicates, constants of type "
                        "M / Mor(M), flat rules without `!`/equality conclusions; acyclic morphism graphs; dom, cod, constants "
                        "single-valued (no equality is ever forced)",
                        "C17_partial is proved under early_morphisms (no rule concludes dom/cod and every dom/cod tuple precedes "
@@ -288,10 +288,20 @@ def run(ctx):
     status = {}
     for r in results:
         status[r["status"]] = status.get(r["status"], 0) + 1
+        if r["status"] in ("rustc_failed", "compiler_panic"):
+            # the compiler accepted the program (or died on it): the generated module must compile
+            multi = any(len(m["cols"]) >= 2 for m in r["prog"]["members"])
+            if r["status"] == "rustc_failed":
+                what = ("rustc rejects the module generated for an accepted program" +
+                        (" with a multi-column member predicate" if multi else ""))
+            else:
+                what = "the compiler panics on a program of the fragment"
+            ctx.violation({"kind": "program", "case": r["key"], "program": r["text"], "prog": r["prog"], "calls": [["close"]],
+                           "status": r["status"], "log": r["log"][-800:]}, what)
         if r["status"] != "ok":
             ctx.cov.setdefault("unusable_programs", []).append({"status": r["status"], "text": r["text"][:600], "log": r["log"][-300:]})
-            if r["key"].startswith("c-") or r["key"] == "replay":
-                ctx.broken.append("corpus program %s does not compile: %s" % (r["key"], r["status"]))
+            if (r["key"].startswith("c-") or r["key"] == "replay") and r["status"] == "rejected":
+                ctx.broken.append("corpus program %s is rejected by the compiler: %s" % (r["key"], r["log"][-200:]))
     ctx.cov["programs"] = status
     ctx.cov["corpus_programs"] = ncorpus
     stats = {"dumps": 0, "agree": 0, "agree_early": 0, "agree_timely": 0, "disagree": 0, "known_finding": 0, "faithful_disagrees": 0,
